@@ -39,6 +39,42 @@ func withCfg(fn func(c *Config)) func(f *d.FileDescriptorProto, c *Config) (*d.F
 	}
 }
 
+// remapComments rebuilds the SourceCodeInfo of a re-ordered file: the leading comments of top-level
+// messages and of their fields follow their message / field to its new index (what protoc would emit
+// for the re-ordered .proto file).
+func remapComments(orig, n *d.FileDescriptorProto) {
+	if orig.SourceCodeInfo == nil {
+		n.SourceCodeInfo = nil
+		return
+	}
+	msgC, fldC := map[string]string{}, map[string]string{}
+	for _, l := range orig.SourceCodeInfo.Location {
+		p := l.Path
+		if l.LeadingComments == nil || len(p) < 2 || p[0] != 4 || int(p[1]) >= len(orig.MessageType) {
+			continue
+		}
+		m := orig.MessageType[p[1]]
+		switch {
+		case len(p) == 2:
+			msgC[m.GetName()] = l.GetLeadingComments()
+		case len(p) == 4 && p[2] == 2 && int(p[3]) < len(m.Field):
+			fldC[m.GetName()+"."+m.Field[p[3]].GetName()] = l.GetLeadingComments()
+		}
+	}
+	sci := &d.SourceCodeInfo{}
+	for mi, m := range n.MessageType {
+		if c, ok := msgC[m.GetName()]; ok {
+			sci.Location = append(sci.Location, &d.SourceCodeInfo_Location{Path: []int32{4, int32(mi)}, LeadingComments: S(c)})
+		}
+		for fi, f := range m.Field {
+			if c, ok := fldC[m.GetName()+"."+f.GetName()]; ok {
+				sci.Location = append(sci.Location, &d.SourceCodeInfo_Location{Path: []int32{4, int32(mi), 2, int32(fi)}, LeadingComments: S(c)})
+			}
+		}
+	}
+	n.SourceCodeInfo = sci
+}
+
 // permute reverses the declaration order of fields in every message and of the messages in the file
 // (numbers, names and oneof membership kept).
 func permute(f *d.FileDescriptorProto, c *Config) (*d.FileDescriptorProto, *Config) {
@@ -51,7 +87,7 @@ func permute(f *d.FileDescriptorProto, c *Config) (*d.FileDescriptorProto, *Conf
 	for i, j := 0, len(n.MessageType)-1; i < j; i, j = i+1, j-1 {
 		n.MessageType[i], n.MessageType[j] = n.MessageType[j], n.MessageType[i]
 	}
-	n.SourceCodeInfo = nil
+	remapComments(f, n)
 	return n, c
 }
 
@@ -63,7 +99,7 @@ func rotate(f *d.FileDescriptorProto, c *Config) (*d.FileDescriptorProto, *Confi
 			m.Field = append(m.Field[1:], m.Field[0])
 		}
 	}
-	n.SourceCodeInfo = nil
+	remapComments(f, n)
 	return n, c
 }
 
@@ -71,7 +107,7 @@ func extraMessage(f *d.FileDescriptorProto, c *Config) (*d.FileDescriptorProto, 
 	n := cloneFile(f)
 	z := msg("Zed", nil, fld("Unrelated", TString), fld("Other", TInt64).rep())
 	n.MessageType = append([]*d.DescriptorProto{z.DescriptorProto}, n.MessageType...)
-	n.SourceCodeInfo = nil
+	remapComments(f, n)
 	return n, c
 }
 
@@ -128,12 +164,13 @@ func variants() []*Variant {
 	add(&Variant{Name: "types:Mid-vs-Top+Mid", Prop: "C12", Base: "P-order", Quick: true, CfgA: func(c *Config) { c.Types = []string{"Mid"} },
 		Mut: withCfg(func(c *Config) { c.Types = []string{"Top", "Mid"} }), Roots: []string{"Mid"}})
 	add(&Variant{Name: "extra-message", Prop: "C12", Base: "P-multi", Quick: true, Mut: extraMessage, Structs: "B"})
+	add(&Variant{Name: "extra-message:P-docs", Prop: "C12", Base: "P-docs", Quick: true, Mut: extraMessage, Structs: "B"})
 	add(&Variant{Name: "extra-dep-file", Prop: "C12", Base: "P-oneof", Quick: true, Mut: ident, Extra: []*d.FileDescriptorProto{extraDepFile()}})
 	// C15: declaration order (sort off)
-	for _, b := range []string{"P-mini", "P-oneof", "P-embed", "P-nest", "P-time", "P-embed-x", "P-mapopt"} {
+	for _, b := range []string{"P-mini", "P-oneof", "P-embed", "P-nest", "P-time", "P-embed-x", "P-mapopt", "P-docs", "P-flags"} {
 		add(&Variant{Name: "perm-reverse:" + b, Prop: "C15", Base: b, Quick: true, Mut: permute})
 	}
-	for _, b := range []string{"P-mini", "P-multi", "P-scal-S1", "P-embed-x"} {
+	for _, b := range []string{"P-mini", "P-multi", "P-scal-S1", "P-embed-x", "P-docs"} {
 		add(&Variant{Name: "perm-rotate:" + b, Prop: "C15", Base: b, Quick: b != "P-scal-S1", Mut: rotate})
 	}
 	add(&Variant{Name: "perm-reverse+sort:P-mini", Prop: "C15", Base: "P-mini", Quick: true, Mut: func(f *d.FileDescriptorProto, c *Config) (*d.FileDescriptorProto, *Config) {
